@@ -11,6 +11,7 @@
 #define VF_MAXSZ (M + 1)
 #define VF_INPUTS(X) X(unsigned char, b, [M]) X(unsigned, off, ) X(unsigned char, fail, )
 #include "vf.h"
+#include "vf_str.h"
 #include "vf_ref_json.h"
 #include "cJSON.c"
 
